@@ -387,7 +387,7 @@ func (t *State) Play(blockid []byte) error {
 	return t.PlayAndRepost(blockid, false, true)
 }
 
-func (t *State) PlayForMiner(blockid []byte) error {
+func (t *State) PlayForMiner(blockid []byte) (err error) {
 	batch := t.NewBatch()
 	block, blockErr := t.sctx.Ledger.QueryBlock(blockid)
 	if blockErr != nil {
@@ -400,10 +400,10 @@ func (t *State) PlayForMiner(blockid []byte) error {
 	}
 	t.utxo.Mutex.Lock()
 	defer t.utxo.Mutex.Unlock() // lock guard
-	var err error
 	defer func() {
 		if err != nil {
-			t.clearBalanceCache()
+			// nothing was written: drop what the failed play left in the caches and in the total
+			t.ClearCache()
 		}
 	}()
 	for _, tx := range block.Transactions {
@@ -450,7 +450,7 @@ func (t *State) PlayForMiner(blockid []byte) error {
 // 执行和发送区块
 // PlayAndRepost 执行一个新收到的block，要求block的pre_hash必须是当前vm的latest_block
 // 执行后会更新latestBlockid
-func (t *State) PlayAndRepost(blockid []byte, needRepost bool, isRootTx bool) error {
+func (t *State) PlayAndRepost(blockid []byte, needRepost bool, isRootTx bool) (err error) {
 	batch := t.ldb.NewBatch()
 	block, blockErr := t.sctx.Ledger.QueryBlock(blockid)
 	if blockErr != nil {
@@ -458,6 +458,12 @@ func (t *State) PlayAndRepost(blockid []byte, needRepost bool, isRootTx bool) er
 	}
 	t.utxo.Mutex.Lock()
 	defer t.utxo.Mutex.Unlock()
+	defer func() {
+		if err != nil {
+			// nothing was written: drop what the failed play left in the caches and in the total
+			t.ClearCache()
+		}
+	}()
 	// 下面开始处理unconfirmed的交易
 	unconfirmToConfirm, undoDone, err := t.processUnconfirmTxs(block, batch, needRepost)
 	if err != nil {
@@ -834,6 +840,7 @@ func (t *State) ClearCache() {
 	t.utxo.PrevFoundKeyCache = cache.NewLRUCache(t.utxo.CacheSize)
 	t.clearBalanceCache()
 	t.xmodel.CleanCache()
+	t.utxo.ReloadTotal()
 	t.log.Info("clear utxo cache")
 }
 
@@ -989,6 +996,12 @@ func (t *State) procUndoBlkForWalk(undoBlocks []*pb.InternalBlock,
 	var tx *pb.Transaction
 	var showTxId string
 
+	defer func() {
+		if err != nil {
+			// the failing step wrote nothing: drop what it left in the caches and in the total
+			t.ClearCache()
+		}
+	}()
 	// 依次回滚每个区块
 	for _, undoBlk = range undoBlocks {
 		showBlkId = hex.EncodeToString(undoBlk.Blockid)
@@ -1097,6 +1110,12 @@ func (t *State) procTodoBlkForWalk(todoBlocks []*pb.InternalBlock) (err error) {
 	var tx *pb.Transaction
 	var showTxId string
 
+	defer func() {
+		if err != nil {
+			// the failing step wrote nothing: drop what it left in the caches and in the total
+			t.ClearCache()
+		}
+	}()
 	// 依次执行每个块的交易
 	for i := len(todoBlocks) - 1; i >= 0; i-- {
 		todoBlk = todoBlocks[i]
